@@ -15,6 +15,42 @@ CLAIMED = {
  "C20": ("The RFC 1928/1929 grammar is a byte-level reference parser in TLA+ (spec/Socks5Ref.tla) with a chunked-stream parser model (spec/Socks5.tla) model-checked for conformance, no read past the message, termination and UDP header round trip; TLC enumerates every grammar path x truncation point x chunking class; each is concretised (seeded fillers, domain lengths swept) and run on the real socks5.Listener.Handshake, SocksAdapter handshake/request handlers and parseUDPHeader/buildUDPHeader; outcome, reply bytes, bytes left unread and round trip are judged by TLC against the reference (spec/Socks5Trace.tla).",
          "trusts TLC, spec/Socks5Ref.tla as the reading of RFC 1928/1929, the concretisation in drivers/c20; the verif-tagged export shims add no behaviour",
          "TLA+ reference parser; TLC-enumerated grammar paths replayed on real parsers; TLC trace validation", "DESIGN.md §5 C20"),
+ "C01": ("TLC model-checks writer / chunking transport / reader (spec/Framing.tla: one action per Read call, short and empty reads, the contract model and the as-found model with named deviations) and enumerates packet sequences x all chunkings; each is written by the real StreamProcessor.WritePacket and read back by the real ReadPacket through a chunk-controlled reader (thorough: also a real WebSocket pair); decoded sequence, exact consumption and errors are judged by TLC (spec/FramingTrace.tla).",
+         "trusts TLC, spec/FramingTrace.tla as the reading of C01, body equality computed in Go; QUIC/KCP represented by the generic short-read transport",
+         "TLA+ framing model; TLC-enumerated chunkings replayed on real reader/writer; TLC trace validation", "DESIGN.md §5 C01"),
+ "C05": ("The hostile-writer part of spec/Framing.tla (type/flag byte classes x declared-length classes x availability x gzip classes incl. bombs, allocation ledger, termination) is model-checked and its 592 frame classes enumerated; each is concretised and fed to the real ReadPacket and the real SessionManager.HandlePacket on a fresh connection with recover(), watchdog and allocation measurement; outcome class, panic/hang flags and allocation bound are judged by TLC (spec/FramingTrace.tla, FramingTraceX.cfg).",
+         "class-exhaustive, not a byte-level fuzzer (seeded fillers and bit mutants beyond the classes); allocation measured process-wide; bound 6*MAX+1MiB for decode, 12*MAX+1MiB for dispatch",
+         "TLA+ hostile-input model; TLC-enumerated frame classes replayed on real decoder/dispatcher; TLC trace validation", "DESIGN.md §5 C05"),
+ "C03": ("TLC model-checks the per-connection handshake state machine with registries (spec/Session.tla: first-connect, challenge, response classes, control/tunnel types, bans, blacklist, credential expiry; ghost proved/used sets) and generates message sequences (transition coverage + simulation); each runs on a real in-process server (SessionManager + ServerAuthHandler + BuiltinCloudControl, real HMACs); the logged post-state after every message is judged by TLC (spec/SessionTrace.tla).",
+         "trusts TLC, spec/SessionTrace.tla as the reading of C03, harness/srvkit fake transports; one server node",
+         "TLA+ auth state machine; TLC-generated message sequences replayed on real server; TLC trace validation", "DESIGN.md §5 C03"),
+ "C07": ("spec/Session.tla also models the registries at critical-section granularity (register, evict, UpdateAuth, kick, sweep, close, reap; Split mode interleaves handler/evict/update-auth of several connections); TLC checks the C07 invariants on the complete 3x2 graph and generates operation sequences; each runs on the real SessionManager/ClientRegistry (srvkit) incl. concurrent login rounds; the full projection after every operation is judged by TLC (spec/SessionTraceReg.tla).",
+         "trusts TLC, spec/SessionTraceReg.tla as the reading of C07, srvkit; staleness via 120 ms heartbeat timeout with margins; concurrent mode judges quiescent projections",
+         "TLA+ registry model; TLC-generated operation sequences replayed on real registries; TLC trace validation", "DESIGN.md §5 C07"),
+ "C04": ("The open-tunnel dispatcher is modelled as a decision structure (spec/TunnelOpen.tla: identity x credential x mapping state x tunnel state x arrival order, 1200 cells; branches and attachment points as coded; ghost entitled()); TLC checks attached => entitled on the repaired design and must still find the violation on the as-found model; every cell is driven on a real server (srvkit + ServerTunnelHandler + conncode.Service; thorough: two nodes with a loopback cross-node listener) and ack / attachment / marker delivery are judged by TLC (spec/TunnelOpenTrace.tla).",
+         "trusts TLC, spec/TunnelOpenTrace.tla as the reading of 'entitled', srvkit transports; opens are sequential",
+         "TLA+ decision-table model; TLC-enumerated cells replayed on real server; TLC trace validation", "DESIGN.md §5 C04"),
+ "C06": ("TLC model-checks connection-code activation at storage-operation granularity (spec/ConnCode.tla: activators, revoker, expiry, one failing write, atomic claim, rollbacks; as-is model kept) and emits transition-coverage behaviours; each interleaving is forced on the real conncode.Service over a gate-controlled store double; call/return histories and the final store are judged by TLC (spec/ConnCodeTrace.tla).",
+         "trusts TLC, spec/ConnCodeTrace.tla as the reading of C06, gate scheduler and store double; one code per behaviour; expiry via 150 ms TTL with margins",
+         "TLA+ storage-step model; gate-scheduled replay on real service; TLC trace validation", "DESIGN.md §5 C06"),
+ "C08": ("TLC model-checks cross-node connection state (spec/ConnState.tla: nodes sharing a store, register/unregister/heartbeat/late cleanup/expiry, backend value shapes, fix subsets) and generates event histories; each runs on real SessionManagers sharing memory / Redis(miniredis) / tiered stores; Find(X) from every node after every event is judged by TLC (spec/ConnStateTrace.tla).",
+         "trusts TLC, spec/ConnStateTrace.tla as the reading of C08, miniredis, real sleeps with margins (inconclusive when overrun); nodes are objects in one process",
+         "TLA+ connection-state model; TLC-generated histories replayed on real nodes over three backends; TLC trace validation", "DESIGN.md §5 C08"),
+ "C09": ("TLC model-checks the waiting-tunnel routing table (spec/Routing.tla: register/lookup/remove/expire, value transformers) and generates all orders; each runs on the real RoutingTable and the real bridge start/end call sites over memory / Redis / tiered backends with seeded field values; lookups are judged by TLC (spec/RoutingTrace.tla).",
+         "field fidelity is generative (seeded), not exhaustive; timing margins as C08",
+         "TLA+ routing model; TLC-generated orders replayed on real RoutingTable; TLC trace validation", "DESIGN.md §5 C09"),
+ "C11": ("A policy table (spec/CommandsPolicy.tla) classifies every command type the real server dispatches (read from the real registry at run time; an unclassified type is exit 2); spec/Commands.tla model-checks commands interleaved with all 32 handshake states; the product command x identity x claimed fields x object is driven on a real server with real handlers; response, store diff and packets delivered to other clients are judged by TLC (spec/CommandsTrace.tla).",
+         "trusts TLC, the hand-written policy table as the reading of C11, the driver's store snapshot and transport observation; one node, three clients",
+         "TLA+ policy/identity model; TLC-generated command cases replayed on real server; TLC trace validation", "DESIGN.md §5 C11"),
+ "C17": ("TLC model-checks N admissions racing at occupancy limit-1 for each limit with the atomicity the code gives it (spec/Limits.tla: connection cap, control cap with evict-oldest, tunnel cap, per-mapping limit incl. slot lifetime, code/mapping quotas at storage-step granularity, one and two nodes) and emits the interleavings; each is forced on the real SessionManager / ClientRegistry / BaseMappingHandler / conncode.Service (gates: supplied reader, verifhook point, store double); admissions, refusals and occupancy are judged by TLC (spec/LimitsTrace.tla).",
+         "trusts TLC, spec/LimitsTrace.tla, gate scheduler, the hook point mapping.quota.checked; cross-node quota overshoot is a listed known finding",
+         "TLA+ check/insert model; gate-scheduled replay on real code; TLC trace validation", "DESIGN.md §5 C17"),
+ "C18": ("TLC model-checks the lock-out logic with a discrete clock (spec/BruteForce.tla: failure window, temp/permanent bans as two critical sections, lazy asynchronous unban / unblacklist as independent processes, clean-ups, whitelist, token bucket) and generates histories incl. every placement of the asynchronous paths; each runs on the real BruteForceProtector / IPManager / RateLimiter / ServerAuthHandler with millisecond configuration, async paths parked at verifhook points; timed predicates on measured timestamps are judged by TLC (spec/BruteForceTrace.tla).",
+         "trusts TLC, spec/BruteForceTrace.tla, real sleeps with margins (behaviours outside their margin are discarded), the hook points",
+         "TLA+ timed model; TLC-generated histories/schedules replayed on real code; TLC trace validation", "DESIGN.md §5 C18"),
+ "C19": ("TLC model-checks HTTP-domain ownership at storage-operation granularity (spec/Domain.tla: create with rollbacks, guarded cascade delete, update, three lookup sources, one failing write, host-spelling table) and emits transition-coverage behaviours; each is forced on the real HTTPDomainMappingRepository (two instances over one store double, and two real hybrid.Storage nodes) with lookups through the real DomainProxyModule; create/delete/lookup results and the final store are judged by TLC (spec/DomainTrace.tla).",
+         "trusts TLC, spec/DomainTrace.tla, gate scheduler and doubles; two legacy-source defects are listed known findings",
+         "TLA+ storage-step model; gate-scheduled replay on real repository/proxy; TLC trace validation", "DESIGN.md §5 C19"),
  "C13": ("TLC enumerates every (state, operation) transition of the reference TTL key-value state graph (spec/KV.tla, per key-type family) and random deep histories; each is replayed on the real memory backend and on the real Redis backend over miniredis; TLC judges every recorded result against the reference (spec/KVTrace.tla).",
          "trusts TLC, spec/KVRef.tla as the reading of the statement, the result normalisation in drivers/c13, miniredis as Redis, real sleeps (120 ms TTL / 200 ms tick) for the clock",
          "TLA+ reference model; TLC transition-coverage generation; trace validation of real-code results by TLC", "DESIGN.md §5 C13"),
